@@ -12,7 +12,8 @@
 (*      disk  : NoDump | the dataset held by the last completed dump (C09),*)
 (*      aof   : NoAof | [dbs, db] = the dataset obtained by re-executing   *)
 (*              the append-only file so far on an empty server, and the    *)
-(*              database its replay connection has selected (C11)]         *)
+(*              database its replay connection has selected (C11),         *)
+(*      scripts : SHA1 digests (byte strings) of the scripts in the cache] *)
 (* connection record = [db, authed, multi, queue, qerr, watch, subs, psubs, *)
 (*                      inbox]                                             *)
 (*   subs/psubs : channels / patterns subscribed; inbox : push frames the  *)
@@ -40,7 +41,7 @@ NewConn(S) == [db |-> 0, authed |-> (S.pass = NoPass), multi |-> FALSE, queue |-
 NoDump == [k |-> "nodump"]
 NoAof == [k |-> "noaof"]
 InitS == [dbs |-> [d \in DBs |-> EmptyK], conns |-> <<>>, pass |-> NoPass, bseq |-> 0, scans |-> <<>>, disk |-> NoDump,
-          aof |-> NoAof]
+          aof |-> NoAof, scripts |-> {}]
 
 SOut(r, S) == {[r |-> r, S |-> S, dv |-> {}]}
 SFail(S) == SOut(RErr, S)
@@ -63,6 +64,9 @@ ReadOnlyCmds == {"GET", "MGET", "STRLEN", "GETRANGE", "EXISTS", "TYPE", "KEYS", 
   "SRANDMEMBER", "HGET", "HMGET", "HGETALL", "HLEN", "HEXISTS", "HKEYS", "HVALS", "ZSCORE", "ZCARD", "ZRANK",
   "ZREVRANK", "ZRANGE", "ZREVRANGE", "ZRANGEBYSCORE", "ZREVRANGEBYSCORE", "ZCOUNT", "XRANGE", "XREVRANGE",
   "XLEN", "XREAD", "XPENDING", "XINFO", "SCAN", "HSCAN", "SSCAN", "ZSCAN", "PING", "ECHO", "SELECT"}
+
+NameOf(a) == CmdName(Upper(a[1]))
+RECURSIVE Exec1(_, _, _, _, _, _)      \* defined below; scripts and transactions run commands through it
 
 -----------------------------------------------------------------------------
 (* connection-level commands *)
@@ -211,6 +215,138 @@ Restarted(S, tm) ==
   IN {[S EXCEPT !.dbs = X, !.conns = <<>>, !.scans = <<>>] : X \in PurgeAllDbs({base}, 0, tm)}
 
 -----------------------------------------------------------------------------
+(* SCRIPTS (C12).  TLA+ does not parse Lua: the harness generates every script from a small DSL and records the
+   program next to the request (obs = [t |-> "evalobs", r, prog, sha]).  A program is a sequence of statements
+     [k |-> "call" | "pcall", a |-> <<arg,...>>, ret |-> 0|1]   redis.call / redis.pcall, optionally returned
+     [k |-> "const", v |-> lua value]                           return <constant>
+   arg = [l |-> bytes] | [key |-> i] | [arg |-> i];  lua value = [t |-> "nil"|"true"|"false"|"int"|"str"|"tab"|"ok"|"err", v]
+   A script is ONE step: its calls run back to back through the same Exec1 as direct commands, on the caller's
+   database; redis.call raises on an error reply (script aborted, earlier effects stay), redis.pcall continues. *)
+NotInScripts == {"BLPOP", "BRPOP", "SUBSCRIBE", "UNSUBSCRIBE", "PSUBSCRIBE", "PUNSUBSCRIBE", "MULTI", "EXEC", "DISCARD",
+  "WATCH", "UNWATCH", "AUTH", "QUIT", "SHUTDOWN", "SAVE", "BGSAVE", "BGREWRITEAOF", "MONITOR", "SYNC", "PSYNC", "REPLICAOF",
+  "SLAVEOF", "REPLCONF", "CONFIG", "CLIENT", "EVAL", "EVALSHA", "SCRIPT", "SLEEP", "?"}
+
+(* RESP reply -> Lua value -> RESP reply (applied to expected-reply patterns) *)
+RECURSIVE Conv(_)
+Conv(r) ==
+  CASE r.t \in {"nil", "nilarr"} -> RNil
+    [] r.t = "arr" -> RArr([i \in 1..Len(r.v) |-> Conv(r.v[i])])
+    [] r.t = "oneof" -> ROneOf({Conv(x) : x \in r.v})
+    [] OTHER -> r
+
+(* Lua constant -> RESP reply *)
+RECURSIVE LuaConst(_)
+TabPrefix(v) == LET nils == {i \in 1..Len(v) : v[i].t = "nil"} IN IF nils = {} THEN v ELSE Sub(v, 1, MinOf(nils) - 1)
+LuaConst(x) ==
+  CASE x.t \in {"nil", "false"} -> RNil
+    [] x.t = "true" -> RInt(1)
+    [] x.t = "int" -> RIntB(x.v)               \* the harness writes numbers whose integer part this is
+    [] x.t = "str" -> RBulk(x.v)
+    [] x.t = "ok" -> RSt(x.v)
+    [] x.t = "err" -> RErr
+    [] x.t = "tab" -> LET p == TabPrefix(x.v) IN RArr([i \in 1..Len(p) |-> LuaConst(p[i])])
+
+ResolveArg(x, keys, args) ==
+  IF "l" \in DOMAIN x THEN x.l
+  ELSE IF "key" \in DOMAIN x THEN keys[x.key] ELSE args[x.arg]
+
+(* Known findings (pinned by the repository's own tests, so not repaired): with fz = TRUE the conversions are
+   the ones ferrous performs — status reply -> plain string, empty table -> nil, a table is cut at its first nil
+   element, false -> 0, a float -> its decimal text, {ok=}/{err=} tables -> nil, redis.pcall swallows the error
+   (nil).  Arguments that are not valid UTF-8 are refused (script_binary). *)
+RECURSIVE ConvF(_)
+CutAtNil(v) == LET nils == {i \in 1..Len(v) : v[i] = RNil} IN IF nils = {} THEN v ELSE Sub(v, 1, MinOf(nils) - 1)
+ConvF(r) ==
+  CASE r.t \in {"nil", "nilarr"} -> RNil
+    [] r.t = "st" -> RBulk(r.v)
+    [] r.t = "arr" -> LET w == CutAtNil([i \in 1..Len(r.v) |-> ConvF(r.v[i])]) IN IF w = <<>> THEN RNil ELSE RArr(w)
+    [] r.t \in {"bag", "pairs", "pick"} -> ROneOf({r, RNil})       \* an empty collection reply becomes nil
+    [] r.t = "oneof" -> ROneOf({ConvF(x) : x \in r.v})
+    [] OTHER -> r
+RECURSIVE LuaConstF(_)
+LuaConstF(x) ==
+  CASE x.t = "nil" -> RNil
+    [] x.t = "false" -> RInt(0)
+    [] x.t = "true" -> RInt(1)
+    [] x.t = "int" -> ROneOf({RIntB(x.v), RAny})       \* a float is answered as text
+    [] x.t = "str" -> RBulk(x.v)
+    [] x.t \in {"ok", "err"} -> RNil
+    [] x.t = "tab" -> LET p == TabPrefix(x.v) IN IF p = <<>> THEN RNil ELSE RArr([i \in 1..Len(p) |-> LuaConstF(p[i])])
+
+(* UTF-8 validity (RFC 3629) *)
+RECURSIVE Utf8From(_, _)
+Cont(b, i) == i <= Len(b) /\ b[i] >= 128 /\ b[i] <= 191
+Utf8From(b, i) ==
+  IF i > Len(b) THEN TRUE
+  ELSE LET c == b[i] IN
+    IF c < 128 THEN Utf8From(b, i + 1)
+    ELSE IF c >= 194 /\ c <= 223 THEN Cont(b, i + 1) /\ Utf8From(b, i + 2)
+    ELSE IF c >= 224 /\ c <= 239 THEN
+         /\ Cont(b, i + 1) /\ Cont(b, i + 2)
+         /\ (c = 224 => b[i + 1] >= 160) /\ (c = 237 => b[i + 1] <= 159)
+         /\ Utf8From(b, i + 3)
+    ELSE IF c >= 240 /\ c <= 244 THEN
+         /\ Cont(b, i + 1) /\ Cont(b, i + 2) /\ Cont(b, i + 3)
+         /\ (c = 240 => b[i + 1] >= 144) /\ (c = 244 => b[i + 1] <= 143)
+         /\ Utf8From(b, i + 4)
+    ELSE FALSE
+IsUtf8(b) == Utf8From(b, 1)
+
+(* run statements i.. ; result: set of [r, S, dv]; fz: ferrous' conversions (see above) *)
+RECURSIVE RunProg(_, _, _, _, _, _, _, _)
+RunProg(S, c, prog, i, keys, args, tm, fz) ==
+  IF i > Len(prog) THEN SOut(RNil, S)                       \* fell off the end: nil
+  ELSE LET st == prog[i] IN
+    IF st.k = "const" THEN SOut(IF fz THEN LuaConstF(st.v) ELSE LuaConst(st.v), S)
+    ELSE LET argv == [j \in 1..Len(st.a) |-> ResolveArg(st.a[j], keys, args)]
+             name == IF Len(argv) = 0 THEN "?" ELSE NameOf(argv)
+             binary == \E j \in 1..Len(argv) : ~IsUtf8(argv[j])
+             outs == IF name \in NotInScripts THEN SFail(S)
+                     ELSE IF binary /\ "script_binary" \in Deviations
+                     THEN {[r |-> RErr, S |-> S, dv |-> {"script_binary"}]}
+                     ELSE Exec1(S, c, argv, tm, NoObs, TRUE)
+         IN UNION {
+              IF o.r.t = "err" /\ st.k = "call" THEN {[r |-> RErr, S |-> o.S, dv |-> o.dv]}          \* raised: script aborted
+              ELSE IF st.ret = 1
+              THEN {[r |-> IF fz THEN (IF o.r.t = "err" THEN RNil ELSE ConvF(o.r)) ELSE Conv(o.r), S |-> o.S, dv |-> o.dv]}
+              ELSE {[x EXCEPT !.dv = @ \cup o.dv] : x \in RunProg(o.S, c, prog, i + 1, keys, args, tm, fz)}
+              : o \in outs}
+
+(* EVAL script numkeys key... arg...  /  EVALSHA sha numkeys key... arg... *)
+CmdEVAL(S, c, a, tm, obs, bysha) ==
+  IF Len(a) < 3 THEN SFail(S)
+  ELSE IF ~IsInt(a[3]) \/ IntOf(a[3]).neg THEN SFail(S)
+  ELSE LET nk == SmallOf(a[3]) IN
+    IF nk > Len(a) - 3 THEN SFail(S)
+    ELSE IF obs.t # "evalobs" THEN SOut(RAny, S)             \* no program recorded: not prescribed
+    ELSE IF bysha /\ obs.sha \notin S.scripts THEN SFail(S)  \* NOSCRIPT
+    ELSE IF obs.prog = <<>> THEN SOut(RAny, S)
+    ELSE IF obs.prog[1].k = "probe"
+    THEN (* sandbox probe: a forbidden global or command must be unreachable — error or nil, nothing changes *)
+         SOut(ROneOf({RErr, RNil}), S)
+    ELSE LET keys == Sub(a, 4, 3 + nk) args == Sub(a, 4 + nk, Len(a))
+             S1 == IF bysha THEN S ELSE [S EXCEPT !.scripts = @ \cup {obs.sha}]
+         IN RunProg(S1, c, obs.prog, 1, keys, args, tm, FALSE)
+            \cup (IF "script_conv" \in Deviations
+                  THEN {[o EXCEPT !.dv = @ \cup {"script_conv"}] : o \in RunProg(S1, c, obs.prog, 1, keys, args, tm, TRUE)}
+                  ELSE {})
+
+(* SCRIPT LOAD body | SCRIPT EXISTS sha... | SCRIPT FLUSH *)
+CmdSCRIPT(S, a, obs) ==
+  IF Len(a) < 2 THEN SFail(S)
+  ELSE LET sub == Upper(a[2]) IN
+    IF sub = L_LOAD THEN
+      (IF Len(a) # 3 THEN SFail(S)
+       ELSE IF obs.t # "evalobs" THEN SOut(RAny, S)
+       ELSE IF obs.prog # <<>> /\ obs.prog[1].k = "syntaxerror" THEN SFail(S)
+       ELSE SOut(RBulk(obs.sha), [S EXCEPT !.scripts = @ \cup {obs.sha}]))
+    ELSE IF sub = L_EXISTS THEN
+      (IF Len(a) < 3 THEN SFail(S)
+       ELSE SOut(RArr([i \in 1..(Len(a) - 2) |-> RInt(IF LowerB(a[i + 2]) \in S.scripts THEN 1 ELSE 0)]), S))
+    ELSE IF sub = L_FLUSH THEN SOut(ROk, [S EXCEPT !.scripts = {}])
+    ELSE SOut(RAny, S)
+
+-----------------------------------------------------------------------------
 (* cursor iterations (C19): one open iteration per <<connection, db, command, key>> *)
 CmdSCANx(S, c, name, a, obs) ==
   LET d == S.conns[c].db
@@ -276,7 +412,6 @@ CmdDISCARD(S, c, a) ==
 
 -----------------------------------------------------------------------------
 (* Immediate execution of one command (not the queueing decision). inTxn: executed as part of EXEC *)
-RECURSIVE Exec1(_, _, _, _, _, _)
 RECURSIVE RunQueue(_, _, _, _, _, _, _)
 
 (* run queue[i..] sequentially; acc = replies so far; result = set of [rs, S, dv] *)
@@ -301,8 +436,6 @@ CmdEXEC(S, c, a, tm, obs) ==
           ELSE IF "may" \in st THEN SOut(RNilArr, cleared) \cup run
           ELSE run
 
-NameOf(a) == CmdName(Upper(a[1]))
-
 Exec1(S, c, a, tm, obs, inTxn) ==
   LET name == NameOf(a)
       d == S.conns[c].db
@@ -325,6 +458,9 @@ Exec1(S, c, a, tm, obs, inTxn) ==
                [] name = "PUBLISH" -> CmdPUBLISH(S, a)
                [] name \in ScanCommands -> CmdSCANx(S, c, name, a, obs)
                [] name = "SAVE" -> CmdSAVE(S, a, tm)
+               [] name = "EVAL" -> (IF inTxn THEN SOut(RAny, S) ELSE CmdEVAL(S, c, a, tm, obs, FALSE))
+               [] name = "EVALSHA" -> (IF inTxn THEN SOut(RAny, S) ELSE CmdEVAL(S, c, a, tm, obs, TRUE))
+               [] name = "SCRIPT" -> CmdSCRIPT(S, a, obs)
                [] name = "BLPOP" -> CmdBPOP(S, c, a, tm, obs, TRUE, inTxn)
                [] name = "BRPOP" -> CmdBPOP(S, c, a, tm, obs, FALSE, inTxn)
                [] name = "?" -> SFail(S)
